@@ -92,6 +92,9 @@ func run(col *core.Collector, prop, tier, variant string, seed uint64, shard, ns
 	case "C20", "C04", "C05", "C06":
 		if variant == "plain" {
 			seq.RunProperty(col, prop, tier, seed, shard, nshards, replayDir)
+			if prop == "C04" {
+				seq.RunReadSchedBound(col, tier, seed, shard, nshards, replayDir)
+			}
 		}
 		conc.Run(col, prop, tier, variant, seed, shard, nshards, replayDir, out)
 		if prop == "C06" {
